@@ -38,6 +38,7 @@ import (
 	"istio.io/istio/pkg/config"
 	"istio.io/istio/pkg/config/constants"
 	"istio.io/istio/pkg/config/schema/gvk"
+	"istio.io/istio/pkg/config/schema/kind"
 	"istio.io/istio/pkg/kube"
 	"istio.io/istio/pkg/security"
 	"istio.io/istio/pkg/spiffe"
@@ -292,7 +293,7 @@ type baseStream struct {
 }
 
 // Sentinel requests: cheap registered types that never fail; one distinct type per phase.
-var sentinelTypes = []string{v3.ExtensionConfigurationType, v3.NameTableType, v3.ProxyConfigType, v3.WorkloadAuthorizationType}
+var sentinelTypes = []string{v3.ExtensionConfigurationType, v3.NameTableType, v3.ProxyConfigType, v3.WorkloadAuthorizationType, v3.WorkloadType}
 
 func sentinelNames(n int) []string {
 	if sentinelTypes[n] == v3.ExtensionConfigurationType {
@@ -448,6 +449,27 @@ func (b *baseStream) next() string {
 			b.calls++ // the push needs no message of its own: go straight to its sentinel
 			return "sentinel:" + strconv.Itoa((b.calls-2)/2)
 		}
+		if act == "secpush" {
+			// a scoped, non-forced push for one Secret: SDS is pushed incrementally from the proxy state the previous
+			// (Gateway) push left behind - no request of the proxy in between recomputes it
+			p := b.proxy()
+			var before time.Time
+			if p != nil {
+				before = p.LastPushTime
+			}
+			b.srv.ConfigUpdate(&model.PushRequest{
+				ConfigsUpdated: sets.New(model.ConfigKey{Kind: kind.Secret, Name: "e", Namespace: "ns1"}),
+				Reason:         model.NewReasonStats(model.SecretTrigger),
+			})
+			for i := 0; i < 20000; i++ {
+				if q := b.proxy(); q == nil || !q.LastPushTime.Equal(before) {
+					break
+				}
+				time.Sleep(time.Millisecond)
+			}
+			b.calls++
+			return "sentinel:" + strconv.Itoa((b.calls-2)/2)
+		}
 		if act == "gwchange" {
 			// a Gateway is created / deleted: the server pushes on its own (scoped, not forced); SDS is not part of
 			// that push, so the change shows in the next phase
@@ -463,7 +485,24 @@ func (b *baseStream) next() string {
 				}
 				time.Sleep(time.Millisecond)
 			}
-			b.quiet = true
+			// no request of the proxy may come between the Gateway push and the Secret push: any request would make
+			// the server recompute the whole proxy state (the default sidecar scope still carries the old push version)
+			// and hide a stale MergedGateway. So the scoped Secret push follows at once.
+			p = b.proxy()
+			var beforeT time.Time
+			if p != nil {
+				beforeT = p.LastPushTime
+			}
+			b.srv.ConfigUpdate(&model.PushRequest{
+				ConfigsUpdated: sets.New(model.ConfigKey{Kind: kind.Secret, Name: "e", Namespace: "ns1"}),
+				Reason:         model.NewReasonStats(model.SecretTrigger),
+			})
+			for i := 0; i < 20000; i++ {
+				if q := b.proxy(); q == nil || !q.LastPushTime.Equal(beforeT) {
+					break
+				}
+				time.Sleep(time.Millisecond)
+			}
 			b.calls++
 			return "sentinel:" + strconv.Itoa((b.calls-2)/2)
 		}
